@@ -1,4 +1,7 @@
 // Fallback when peek.cc does not compile against the current cat.h: coverage degraded.
+#include <cstddef>
+// assumed layout when the field names are unknown: the three configuration pointers come first
+extern "C" size_t peek_mutable_offset(void) { return 3 * sizeof(void *); }
 extern "C" int peek_state(const void *o, int out[4])
 {
         (void)o;
